@@ -249,9 +249,7 @@ theorem idle_timeouts (cs : ConnState) (now : Nat) (h : cs.lastSeen ≤ now) (hn
 /-- **`struct conn_state` ↔ `bpfConnState`.**  Reading the 56-byte image the kernel program stores
 at the Go struct's field offsets yields exactly the fields that were stored (for in-range values:
 `u32` mark/pid, `u8` outbound/must/dscp/has_routing, 6-byte MAC, 16-byte name). -/
-theorem conn_state_layout (c : ConnState)
-    (h : c.mark < 2 ^ 32 ∧ c.pid < 2 ^ 32 ∧ c.outbound < 256 ∧ c.must < 256 ∧ c.dscp < 256 ∧ c.hasRouting < 256 ∧
-      c.mac.length = 6 ∧ c.pname.length = 16) :
+theorem conn_state_layout (c : ConnState) (h : c.WF) :
     (encConn c).length = 56 ∧
     goDecConn (encConn c) = ⟨c.hasRouting, ⟨c.mark, c.must, c.mac, c.outbound, c.pname, c.pid, c.dscp⟩⟩ := by
   obtain ⟨h1, h2, h3, h4, h5, h6, h7, h8⟩ := h
@@ -262,9 +260,7 @@ theorem conn_state_layout (c : ConnState)
     Nat.mod_eq_of_lt h3, Nat.mod_eq_of_lt h4, Nat.mod_eq_of_lt h5, Nat.mod_eq_of_lt h6]
 
 /-- **`struct routing_handoff_entry` ↔ `bpfRoutingHandoffEntry`.** -/
-theorem handoff_layout (x : Handoff)
-    (h : x.lastSeen < 2 ^ 64 ∧ x.result.mark < 2 ^ 32 ∧ x.result.pid < 2 ^ 32 ∧ x.result.outbound < 256 ∧
-      x.result.must < 256 ∧ x.result.dscp < 256 ∧ x.result.mac.length = 6 ∧ x.result.pname.length = 16) :
+theorem handoff_layout (x : Handoff) (h : x.WF) :
     (encHandoff x).length = 48 ∧ goDecHandoff (encHandoff x) = x := by
   obtain ⟨h0, h1, h2, h3, h4, h5, h7, h8⟩ := h
   refine ⟨encHandoff_length x, ?_⟩
@@ -276,10 +272,92 @@ theorem handoff_layout (x : Handoff)
 
 /-- **Lookup key.**  The key `bpfTuplesKeyFromAddrPorts` builds for (src, dst, l4proto) is byte for
 byte the `struct tuples_key` the kernel program stored the entry under (40 bytes: addresses in
-network order, ports in network order, protocol, three zero bytes). -/
+network order, ports in network order, protocol, three zero bytes), and distinct in-range tuples have
+distinct key bytes. -/
 theorem lookup_key_layout (k : Key) :
-    goKey k.sip k.sport k.dip k.dport k.l4 = encKey k ∧ (encKey k).length = 40 :=
-  ⟨rfl, encKey_length k⟩
+    goKey k.sip k.sport k.dip k.dport k.l4 = encKey k ∧ (encKey k).length = 40 ∧
+    ∀ k', k.WF → k'.WF → encKey k = encKey k' → k = k' :=
+  ⟨rfl, encKey_length k, fun k' h h' e => encKey_inj k k' h h' e⟩
+
+/-- **The control plane reads back what the kernel program stored.**  Running `RetrieveRoutingResult`
+the way the Go code does — on the raw key/value BYTES of `conn_state_map` and `routing_handoff_map`,
+through the bpf2go struct layouts — gives exactly the result of `retrieve` on the structured world
+the hook theorems talk about (all stored values in range for their C types). -/
+theorem retrieve_reads_the_stored_bytes (w : World) (k : Key) (t : Nat) (hw : w.WF) (hk : k.WF) :
+    retrieveGo (connImage w) (handoffImage w) k.sip k.sport k.dip k.dport k.l4 t = retrieve w k t := by
+  unfold retrieveGo retrieve connImage handoffImage
+  have hkey : goKey k.sip k.sport k.dip k.dport k.l4 = encKey k := rfl
+  simp only [hkey]
+  rw [alookup_image w.conn encConn k (fun p hp => (hw.1 p hp).1) hk,
+    alookup_image w.handoff encHandoff k (fun p hp => (hw.2 p hp).1) hk]
+  have hc : ∀ cs, alookup w.conn k = some cs → goDecConn (encConn cs) =
+      ⟨cs.hasRouting, ⟨cs.mark, cs.must, cs.mac, cs.outbound, cs.pname, cs.pid, cs.dscp⟩⟩ :=
+    fun cs hl => (conn_state_layout cs (hw.1 _ (alookup_mem _ _ _ hl)).2).2
+  have hh : ∀ x, alookup w.handoff k = some x → goDecHandoff (encHandoff x) = x :=
+    fun x hl => (handoff_layout x (hw.2 _ (alookup_mem _ _ _ hl)).2).2
+  by_cases h4 : k.l4 = IPPROTO_TCP ∨ k.l4 = IPPROTO_UDP
+  · cases hlc : alookup w.conn k with
+    | none =>
+      cases hlh : alookup w.handoff k with
+      | none => simp [h4]
+      | some x => simp [h4, hh x hlh]
+    | some cs =>
+      by_cases hr : cs.hasRouting = 0
+      · cases hlh : alookup w.handoff k with
+        | none => simp [h4, hc cs hlc, hr]
+        | some x => simp [h4, hc cs hlc, hr, hh x hlh]
+      · cases hlh : alookup w.handoff k with
+        | none => simp [h4, hc cs hlc, hr]
+        | some x => simp [h4, hc cs hlc, hr]
+  · cases hlc : alookup w.conn k with
+    | none =>
+      cases hlh : alookup w.handoff k with
+      | none => simp [h4]
+      | some x => simp [h4, hh x hlh]
+    | some cs =>
+      cases hlh : alookup w.handoff k with
+      | none => simp [h4]
+      | some x => simp [h4, hh x hlh]
+
+/-! ## Who counts as dae, which bit is the health bit -/
+
+/-- **How dae's own packets are recognised** (`pid_is_control_plane`): if the frame's socket cookie is
+in `cookie_pid_map`, the pid recorded for it must equal `PARAM.control_plane_pid` (and that must be
+set); otherwise the skb mark must equal dae's socket mark (when one is configured) or carry bit
+0x100. -/
+theorem dae_recognition (w : World) (s : Skb) :
+    (pidIsControlPlane w s).isCp =
+      match alookup w.cookies s.cookie with
+      | some pp => w.param.ctlPid != 0 && pp.pid == w.param.ctlPid
+      | none => (w.param.sockMark != 0 && s.mark == w.param.sockMark) || s.mark % 512 / 256 == 1 := by
+  unfold pidIsControlPlane
+  cases alookup w.cookies s.cookie with
+  | none => rfl
+  | some pp =>
+    simp only
+    by_cases h : w.param.ctlPid = 0
+    · simp [h]
+    · simp [h]
+
+/-- **The health bit of a group** is slot `outbound*6 + 2*domain + family` of
+`outbound_connectivity_map` with domain 0 = TCP, 2 = data UDP, family 0 = IPv4 (by `skb->protocol`),
+1 = IPv6 — the slot the control plane's `outboundConnectivityMapKey` writes (compared on every run) —
+and destination port 53 is always let through. -/
+theorem group_health_bit (w : World) (s : Skb) (l4 dport ob : Nat) (hob : ob < 256) :
+    groupUp w s l4 dport ob =
+      (dport == 53 ||
+        aliveAt w (ob * 6 + (if l4 = IPPROTO_UDP then 4 else 0) + (if s.raw.proto = ETH_P_IP then 0 else 1)) != 0) := by
+  unfold groupUp wanAlive
+  by_cases h53 : dport = 53
+  · simp [h53]
+  · have hb : (dport == 53) = false := by simp [h53]
+    simp only [h53, if_false, hb, Bool.false_or, Nat.mod_eq_of_lt hob]
+    have hk : ob * 6 + (if l4 = IPPROTO_UDP then 2 else 0) * 2 + (if s.raw.proto = ETH_P_IP then 0 else 1) < CONNECTIVITY_MAX := by
+      unfold CONNECTIVITY_MAX
+      split <;> split <;> omega
+    simp only [hk, if_true]
+    congr 2
+    split <;> rfl
 
 /-! ## Non-vacuity: concrete frames and worlds meeting the hypotheses
 
@@ -362,5 +440,16 @@ example : WanOriginated ({ conn := [(⟨1, 2, 5000, 6000, 17⟩, ⟨true, 0, 100
 -- `conn_state_layout` / `handoff_layout`: in-range records exist
 example : (⟨false, 0, 5, 0xffffffff, 2, 1, 63, 1, [1,2,3,4,5,6], zeros 16, 4242⟩ : ConnState).mark < 2 ^ 32 ∧
     ([1,2,3,4,5,6] : Bytes).length = 6 ∧ (zeros 16).length = 16 := by decide
+
+-- `retrieve_reads_the_stored_bytes`: a world with a stored entry whose values are all in range
+example : exTracked.WF ∧ exK.WF := by
+  refine ⟨⟨?_, ?_⟩, ?_⟩
+  · intro p hp
+    have : p = (exK, ⟨false, 0, 1000000000, 0, 2, 0, 0, 1, [2,0,0,0,0,1], zeros 16, 0⟩) := by
+      simpa [exTracked] using hp
+    subst this
+    exact ⟨by unfold Key.WF; decide, by unfold ConnState.WF; decide⟩
+  · intro p hp; simp [exTracked, exWorld] at hp
+  · unfold Key.WF; decide
 
 end DaeVerif.C03.Props
